@@ -424,4 +424,83 @@ def renderFrom (pad : Nat → List Char) : Nat → List RawTok → List Char
 
 def render (pad : Nat → List Char) (toks : List RawTok) : List Char := renderFrom pad 0 toks
 
+/-! ## Builder OBJECTS and build histories (`_BaseHOFormulaBuilder` as Python sees it)
+
+A builder object carries its token deque (here: the tree it denotes) and — if the source keeps more state on the
+object than the tokens — whatever a `build` left there (`memo`).  `Extracted.Formula.hoBuilderKeepsOnlyTokens` is what
+the extractor establishes from the source: the instance attributes written in the builder classes are exactly the
+token deque and the create method, `build` writes nothing (no attribute, no container reachable from the object or the
+module), so `copy.copy(self)` in `_copy` copies token state only.  When the flag is `false` the model memoises the
+first built program on the object and hands it to every derived builder (what a cached engine travelling through
+`copy.copy` does). -/
+
+structure LiveB where
+  tree : HO
+  memo : Option (List Step)
+deriving Repr
+
+/-- One statement of a program using the composition API; objects are referred to by creation index. -/
+inductive BEv where
+  | start (n : Nat)                             -- `HigherOrderFormulaBuilder(engine n)` (an engine turned builder)
+  | pushEng (i : Nat) (o : BinOp) (n : Nat)     -- `b_i <o> engine_n`
+  | pushConst (i : Nat) (o : BinOp) (c : Rat)   -- `b_i <o> c`
+  | pushB (i : Nat) (o : BinOp) (j : Nat)       -- `b_i <o> b_j`
+  | un (i : Nat) (u : UnOp)                     -- `b_i.consumption()` / `.production()`
+  | build (i : Nat) (z : Bool)                  -- `b_i.build(name, nones_are_zeros=z)`
+deriving Repr
+
+/-- `_copy()` followed by the token operations: the new object denotes `t`. -/
+def LiveB.derive (src : LiveB) (t : HO) : LiveB :=
+  ⟨t, if Extracted.Formula.hoBuilderKeepsOnlyTokens then none else src.memo⟩
+
+def stepLive (s : List LiveB) : BEv → List LiveB × List (List Step)
+  | .start n => (s ++ [⟨.start n, none⟩], [])
+  | .pushEng i o n => match s[i]? with
+    | some b => (s ++ [b.derive (.pushEng b.tree o n)], [])
+    | none => (s, [])
+  | .pushConst i o c => match s[i]? with
+    | some b => (s ++ [b.derive (.pushConst b.tree o c)], [])
+    | none => (s, [])
+  | .pushB i o j => match s[i]?, s[j]? with
+    | some b, some r => (s ++ [b.derive (.pushB b.tree o r.tree)], [])
+    | _, _ => (s, [])
+  | .un i u => match s[i]? with
+    | some b => (s ++ [b.derive (.un b.tree u)], [])
+    | none => (s, [])
+  | .build i z => match s[i]? with
+    | some b =>
+      if Extracted.Formula.hoBuilderKeepsOnlyTokens then (s, [hoBuild b.tree z])
+      else
+        let out := b.memo.getD (hoBuild b.tree z)
+        (s.set i { b with memo := some out }, [out])
+    | none => (s, [])
+
+/-- The programs handed out by the `build` calls of a history, in order. -/
+def runLive (s : List LiveB) : List BEv → List (List Step)
+  | [] => []
+  | e :: es => (stepLive s e).2 ++ runLive (stepLive s e).1 es
+
+/-- The same history when `build` is a pure function of the builder's own tree. -/
+def stepFresh (s : List HO) : BEv → List HO × List (List Step)
+  | .start n => (s ++ [.start n], [])
+  | .pushEng i o n => match s[i]? with
+    | some b => (s ++ [.pushEng b o n], [])
+    | none => (s, [])
+  | .pushConst i o c => match s[i]? with
+    | some b => (s ++ [.pushConst b o c], [])
+    | none => (s, [])
+  | .pushB i o j => match s[i]?, s[j]? with
+    | some b, some r => (s ++ [.pushB b o r], [])
+    | _, _ => (s, [])
+  | .un i u => match s[i]? with
+    | some b => (s ++ [.un b u], [])
+    | none => (s, [])
+  | .build i z => match s[i]? with
+    | some b => (s, [hoBuild b z])
+    | none => (s, [])
+
+def runFresh (s : List HO) : List BEv → List (List Step)
+  | [] => []
+  | e :: es => (stepFresh s e).2 ++ runFresh (stepFresh s e).1 es
+
 end Formula
